@@ -20,14 +20,83 @@ import ast
 import copy
 
 
+PROPS: dict[str, dict[str, ast.AST]] = {}
+
+
+def _plain_record(node: ast.ClassDef):
+    """(fields, defaults) for a class that is nothing but a record of its constructor arguments: `__slots__` naming the
+    fields and an `__init__(self, a, b, ...)` that stores each argument under its own name -- or a `@dataclass`"""
+    # a class with behaviour of its own (methods other than __init__/__repr__ and read-only properties) is not "just a record"
+    for st in node.body:
+        if isinstance(st, (ast.FunctionDef, ast.AsyncFunctionDef)) and st.name not in ("__init__", "__repr__", "__str__") \
+                and not any(ast.unparse(d) == "property" for d in st.decorator_list):
+            return None
+    decos = [ast.unparse(d).split("(")[0].split(".")[-1] for d in node.decorator_list]
+    if "dataclass" in decos and not node.bases:
+        fields, defaults = [], {}
+        for st in node.body:
+            if isinstance(st, ast.AnnAssign) and isinstance(st.target, ast.Name) and "ClassVar" not in ast.unparse(st.annotation):
+                fields.append(st.target.id)
+                if st.value is not None:
+                    if isinstance(st.value, ast.Call) and ast.unparse(st.value.func).split(".")[-1] == "field":
+                        return None
+                    defaults[st.target.id] = st.value
+            elif isinstance(st, ast.FunctionDef) and st.name in ("__init__", "__post_init__", "__new__", "__getattr__", "__eq__", "__iter__", "__getitem__"):
+                return None
+        return (fields, defaults) if fields else None
+    if node.bases or node.decorator_list:
+        return None
+    slots = None
+    init = None
+    for st in node.body:
+        if isinstance(st, ast.Assign) and len(st.targets) == 1 and isinstance(st.targets[0], ast.Name) and st.targets[0].id == "__slots__" \
+                and isinstance(st.value, (ast.Tuple, ast.List)) and all(isinstance(x, ast.Constant) and isinstance(x.value, str) for x in st.value.elts):
+            slots = [x.value for x in st.value.elts]
+        elif isinstance(st, ast.FunctionDef) and st.name == "__init__":
+            init = st
+        elif isinstance(st, ast.FunctionDef) and st.name in ("__new__", "__getattr__", "__setattr__", "__eq__", "__iter__", "__getitem__", "__len__", "__bool__"):
+            return None
+    if slots is None or init is None:
+        return None
+    a = init.args
+    if a.vararg or a.kwarg or a.kwonlyargs or a.posonlyargs:
+        return None
+    params = [x.arg for x in a.args][1:]
+    if sorted(params) != sorted(slots):
+        return None
+    stored = {}
+    for st in init.body:
+        if isinstance(st, ast.Expr) and isinstance(st.value, ast.Constant):
+            continue
+        tgt = st.targets[0] if isinstance(st, ast.Assign) and len(st.targets) == 1 else (st.target if isinstance(st, ast.AnnAssign) and st.value is not None else None)
+        if isinstance(tgt, ast.Attribute) and isinstance(tgt.value, ast.Name) and tgt.value.id == a.args[0].arg and isinstance(st.value, ast.Name) and st.value.id == tgt.attr:
+            stored[tgt.attr] = True
+        else:
+            return None
+    if sorted(stored) != sorted(params):
+        return None
+    defaults = dict(zip(params[len(params) - len(a.defaults):], a.defaults))
+    return params, defaults
+
+
 def collect_records(trees: list[ast.Module]) -> dict[str, tuple[list[str], dict[str, ast.AST]]]:
     out: dict[str, tuple[list[str], dict[str, ast.AST]]] = {}
+    PROPS.clear()
     for tree in trees:
         for node in ast.walk(tree):
             if not isinstance(node, ast.ClassDef):
                 continue
             bases = [ast.unparse(b) for b in node.bases]
             if not any(b in ("NamedTuple", "typing.NamedTuple") for b in bases):
+                pr = _plain_record(node)
+                if pr is not None:
+                    out[node.name] = pr
+                    # read-only properties that are one expression of the fields are inlined at their uses
+                    for st in node.body:
+                        if isinstance(st, ast.FunctionDef) and any(ast.unparse(d) == "property" for d in st.decorator_list) and len(st.args.args) == 1:
+                            body = [b for b in st.body if not (isinstance(b, ast.Expr) and isinstance(b.value, ast.Constant))]
+                            if len(body) == 1 and isinstance(body[0], ast.Return) and body[0].value is not None:
+                                PROPS.setdefault(node.name, {})[st.name] = (st.args.args[0].arg, body[0].value)
                 continue
             fields: list[str] = []
             defaults: dict[str, ast.AST] = {}
@@ -166,6 +235,18 @@ class _Desugar(ast.NodeTransformer):
     def visit_Attribute(self, node: ast.Attribute):
         self.generic_visit(node)
         r = self.rec_of(node.value)
+        if r is not None and node.attr in PROPS.get(r, {}) and isinstance(node.ctx, ast.Load):
+            selfname, expr = PROPS[r][node.attr]
+
+            class _S(ast.NodeTransformer):
+                def visit_Attribute(s_, x):  # noqa: N805
+                    s_.generic_visit(x)
+                    if isinstance(x.value, ast.Name) and x.value.id == selfname and x.attr in self.records[r][0]:
+                        return ast.Subscript(value=copy.deepcopy(node.value), slice=ast.Constant(value=self.records[r][0].index(x.attr)), ctx=ast.Load())
+                    return x
+            new = _S().visit(copy.deepcopy(expr))
+            if not any(isinstance(x, ast.Name) and x.id == selfname for x in ast.walk(new)):
+                return ast.fix_missing_locations(ast.copy_location(new, node))
         if r is not None and node.attr in self.records[r][0]:
             i = self.records[r][0].index(node.attr)
             new = ast.Subscript(value=node.value, slice=ast.Constant(value=i), ctx=node.ctx)
